@@ -123,6 +123,17 @@ func genNames(g *G, quick int) {
 		emitName(g, "a."+tld+"x")
 	}
 	// an ACE label in every position of a short name
+	// right-to-left labels in ACE form next to labels that do not start with a letter; ASCII names that
+	// shrink under IDNA; digits-and-hyphens final labels
+	for _, name := range []string{"1.xn--4dbrk0ce", "_http._tcp.xn--4dbrk0ce.com", "xn--4dbrk0ce.1a", "a.xn--mgbh0fb", "1.xn--mgbh0fb", "xn--4dbrk0ce", "1-.xn--4dbrk0ce", "\u05d0\u05d1.1", "1.\u05d0\u05d1",
+		"example.1-1", "0-0", "1-2-3", "a.0-0", "a.1-a", "a.-1", "a.1-", "9-9.9-9", "_s.a.1-1"} {
+		emitName(g, name)
+	}
+	for _, n := range []int{30, 36, 37, 50, 100} {
+		emitName(g, strings.Repeat("xn--a-.", n)+"com")
+		emitName(g, "_srv."+strings.Repeat("xn--a-.", n)+"com")
+		emitName(g, strings.Repeat("xn--ab-.", n)+"com")
+	}
 	// every byte value as a whole label, inside a label and at its ends, in first, inner and last position
 	for b := 0; b < 256; b++ {
 		c := string([]byte{byte(b)})
